@@ -687,6 +687,9 @@ func run(c hx.Config) error {
 		return err
 	}
 
+	// multi-issue checks x issue-dependent message functions (multi.go)
+	multiCells(c, o, one)
+
 	// raw issues as the library hands them to a global error map (real Properties), captured by a recording map
 	core.SetConfig(nil)
 	core.SetConfig(&core.ZodConfig{CustomError: func(raw core.ZodRawIssue) string {
